@@ -2,6 +2,7 @@
 import HtpModel.Conn.Res
 import HtpModel.Lemmas.Driver
 import HtpModel.Lemmas.Consumed
+import HtpModel.Lemmas.ConsumedOut
 
 namespace Htp.C09
 open Htp.Conn Htp.Gen
@@ -131,5 +132,35 @@ theorem C09_data_means_consumed (cfg : Cfg) (fuel : Nat) (c : Conn)
 example :
     let c : Conn := { inn := { status := STREAM_DATA, cur := (b!"GET /"), len := 5 }, inState := .line }
     (reqStateFn {} c).2 = Rc.dataBuffer ∧ (reqStateFn {} c).1.inn.read = 5 := by decide
+
+/-- **C09 (DATA means the whole chunk was consumed), response direction, one pass of the driver**: the same for the ten response state
+    functions. The cursor hypothesis is needed in the status-line and header states (their line-end handling peeks and copies bytes);
+    the two counted body states are entered only with a positive amount owed. -/
+theorem C09_res_data_means_consumed_step (cfg : Cfg) (c : Conn)
+    (hw : c.outState = ResState.line ∨ c.outState = ResState.headers → WFCur c.out)
+    (ho1 : c.outState = ResState.bodyIdentityClKnown → 0 < c.out.bodyDataLeft)
+    (ho2 : c.outState = ResState.bodyChunkedData → 0 < c.out.chunkedLength)
+    (hd : (resStateFn cfg c).2 = Rc.data ∨ (resStateFn cfg c).2 = Rc.dataBuffer) :
+    (resStateFn cfg c).1.out.len ≤ (resStateFn cfg c).1.out.read :=
+  consumedOut_resStateFn cfg c hw ho1 ho2 hd
+
+/-- ... and htp_connp_res_data then returns at once with STREAM_DATA (STREAM_ERROR at the line-buffer limit) and exactly that cursor. -/
+theorem C09_res_data_means_consumed (cfg : Cfg) (fuel : Nat) (c : Conn)
+    (hw : c.outState = ResState.line ∨ c.outState = ResState.headers → WFCur c.out)
+    (ho1 : c.outState = ResState.bodyIdentityClKnown → 0 < c.out.bodyDataLeft)
+    (ho2 : c.outState = ResState.bodyChunkedData → 0 < c.out.chunkedLength)
+    (hd : (resStateFn cfg c).2 = Rc.data ∨ (resStateFn cfg c).2 = Rc.dataBuffer) :
+    ((resDriverLoop cfg false (fuel + 1) c).2 = STREAM_DATA ∨ (resDriverLoop cfg false (fuel + 1) c).2 = STREAM_ERROR) ∧
+    (resDriverLoop cfg false (fuel + 1) c).1.out.len ≤ (resDriverLoop cfg false (fuel + 1) c).1.out.read := by
+  obtain ⟨h1, h2, h3⟩ := resDriverLoop_data_step cfg fuel c hd
+  refine ⟨h1, ?_⟩
+  rw [h2, h3]
+  exact consumedOut_resStateFn cfg c hw ho1 ho2 hd
+
+/-- non-vacuity: a chunk that ends inside a status line is answered with DATA_BUFFER and read to its end -/
+example :
+    let c : Conn := { out := { status := STREAM_DATA, cur := (b!"HTTP/1.1 2"), len := 10, tx := some 0 }, outState := .line,
+                      txs := [some { uid := 0 }] }
+    (resStateFn {} c).2 = Rc.dataBuffer ∧ (resStateFn {} c).1.out.read = 10 := by decide
 
 end Htp.C09
